@@ -38,7 +38,61 @@ def spell(rng, name):
 
 # --------------------------------------------------------------------------- project A
 
-def gen_a(rng: random.Random, size: int = 2) -> dict:
+def respell(rng, name):
+    """the same identifier, possibly in another case (declarations of *different* entities)"""
+    return rng.choice([name, name, name.lower(), name.capitalize()])
+
+
+def coincidences(rng, m, earlier, nm, acc, default, ctr):
+    """Same identifier for entities of different kinds - all of it ordinary, legal Fortran:
+      * a generic interface named like a derived type of the module (user-defined constructor);
+      * a module function / variable named like a component or a binding of a type (type scope);
+      * `procedure :: s` - a binding named like the module subroutine it binds to;
+      * a private function named like a public function / component of an earlier, unrelated module.
+    Each entity keeps its own tracer, so which one a page or a description talks about stays decidable."""
+    m["coincide"] = []
+    for t in m["types"]:
+        if rng.random() < 0.35:
+            f = {"name": nm("fun"), "acc": "private" if rng.random() < 0.5 else acc(default), "tracer": ctr.tracer(),
+                 "returns": t["name"]}
+            m["funcs"].append(f)
+            # one identifier: the accessibility of the generic name is that of the type name
+            t["ctor"] = True
+            m["generics"].append({"name": respell(rng, t["name"]), "acc": t["acc"], "tracer": ctr.tracer(),
+                                  "procs": [f["name"]], "ctor_of": t["name"]})
+            m["coincide"].append("constructor")
+    members = [(t, c, "comp") for t in m["types"] for c in t["comps"]] + \
+              [(t, b, "bound") for t in m["types"] for b in t["bound"]]
+    taken = set()
+    for t, e, k in members:
+        if e["name"].lower() in taken:
+            continue
+        r = rng.random()
+        if r < 0.2:
+            m["funcs"].append({"name": respell(rng, e["name"]), "acc": acc(default), "tracer": ctr.tracer()})
+            m["coincide"].append(f"function~{k}")
+            taken.add(e["name"].lower())
+        elif r < 0.35:
+            m["vars"].append({"name": respell(rng, e["name"]), "acc": acc(default), "tracer": ctr.tracer()})
+            m["coincide"].append(f"variable~{k}")
+            taken.add(e["name"].lower())
+    for t in m["types"]:
+        for b in t["bound"]:
+            if b["name"].lower() not in taken and rng.random() < 0.3:
+                # `procedure :: target`: the binding has the name of the module procedure
+                b["name"] = b["target"]
+                m["coincide"].append("binding~subroutine")
+    if earlier and not m["uses"] and rng.random() < 0.25:
+        em = rng.choice(earlier)
+        names = [f["name"] for f in em["funcs"] if not f.get("returns")] + [c["name"] for t in em["types"] for c in t["comps"]]
+        own = {e["name"].lower() for lst in ("types", "funcs", "subs", "generics", "absints", "vars") for e in m[lst]}
+        names = [n for n in names if n.lower() not in own]
+        if names:
+            m["funcs"].append({"name": respell(rng, rng.choice(names)), "acc": "private", "tracer": ctr.tracer()})
+            m["coincide"].append("private function~other module")
+
+
+def gen_a(rng: random.Random, size: int = 2, coincide: bool = True) -> dict:
     ctr = Ctr("A")
     nmod = rng.randint(1, 1 + size)
     mods = []
@@ -91,6 +145,8 @@ def gen_a(rng: random.Random, size: int = 2) -> dict:
             m["absints"].append({"name": nm("abs"), "acc": acc(default), "tracer": ctr.tracer()})
         for _ in range(rng.randint(0, 2)):
             m["vars"].append({"name": nm("var"), "acc": acc(default), "tracer": ctr.tracer()})
+        if coincide:
+            coincidences(rng, m, mods, nm, acc, default, ctr)
         mods.append(m)
     A = {"modules": mods, "has_program": rng.random() < 0.3, "prog_tracer": ctr.tracer()}
     for m in mods:
@@ -236,7 +292,7 @@ def render_a(A, rng) -> dict:
             a = access(v, True)
             body += [f"  integer{a} :: {v['name']} = 1", f"    !! {v['tracer']} variable doc"]
         for t in m["types"]:
-            a = access(t, True)
+            a = access(t, not t.get("ctor"))
             ext = f", extends({spell(rng, t['extends'])})" if t["extends"] else ""
             body += [f"  type{a}{ext} :: {t['name']}", f"    !! {t['tracer']} type doc"]
             for c in t["comps"]:
@@ -245,10 +301,12 @@ def render_a(A, rng) -> dict:
             if t["bound"]:
                 body.append("  contains")
                 for b in t["bound"]:
-                    body += [f"    procedure :: {b['name']} => {b['target']}", f"      !! {b['tracer']} binding doc"]
+                    bind = b["name"] if b["name"] == b["target"] else f"{b['name']} => {b['target']}"
+                    body += [f"    procedure :: {bind}", f"      !! {b['tracer']} binding doc"]
             body.append(f"  end type {t['name']}")
         for g in m["generics"]:
-            access(g, False)
+            if not g.get("ctor_of"):      # a constructor shares the identifier (and its accessibility) with the type
+                access(g, False)
             body += [f"  interface {g['name']}", f"    !! {g['tracer']} generic doc",
                      "    module procedure " + ", ".join(g["procs"]), "  end interface"]
         for ai in m["absints"]:
@@ -259,6 +317,10 @@ def render_a(A, rng) -> dict:
         for k, f in enumerate(m["funcs"]):
             access(f, False)
             argt = "integer" if k % 2 == 0 else "real"
+            if f.get("returns"):
+                procs += [f"  function {f['name']}(x) result(r)", f"    !! {f['tracer']} function doc",
+                          f"    {argt}, intent(in) :: x", f"    type({f['returns']}) :: r", f"  end function {f['name']}"]
+                continue
             procs += [f"  function {f['name']}(x) result(r)", f"    !! {f['tracer']} function doc",
                       f"    {argt}, intent(in) :: x", f"    {argt} :: r", "    r = x", f"  end function {f['name']}"]
         for s in m["subs"]:
@@ -384,7 +446,7 @@ def gen_b(rng: random.Random, A: dict, links_ok: bool = True, clashes: bool = Tr
             for k in KINDS:
                 for n in pn[k]:
                     if only is None or n in only:
-                        visible[k][n] = find_entity(A, org[n])
+                        visible[k][n] = find_entity(A, org[n], k)
                         if org[n] != n:
                             alias[n] = org[n]
         # names B defines itself (clash scenarios) are not referred to as A's from other modules:
@@ -446,6 +508,11 @@ def gen_b(rng: random.Random, A: dict, links_ok: bool = True, clashes: bool = Tr
                     continue
                 am = module_of(A, u["mod"])
                 cands.append((f"[[{spell(rng, am['name'])}]]", am["name"], am["tracer"], "link to module"))
+            # identifiers that name more than one entity of A (constructor, component / binding vs module
+            # entity ...): references to them come first, each must reach the entity of the kind referred to
+            count = {}
+            for k_, m_, e_, p_ in a_entities(A):
+                count[e_["name"].lower()] = count.get(e_["name"].lower(), 0) + 1
             for tn in vtypes:
                 if tn in alias:
                     continue
@@ -454,10 +521,14 @@ def gen_b(rng: random.Random, A: dict, links_ok: bool = True, clashes: bool = Tr
                 for c in e["comps"]:
                     if c["acc"] != "private":
                         cands.append((f"[[{tn}:{c['name']}]]", c["name"], c["tracer"], "link to component"))
+                for b in e["bound"]:
+                    cands.append((f"[[{tn}:{b['name']}]]", b["name"], b["tracer"], "link to binding"))
             for p in vprocs:
                 if p in alias:
                     continue
                 e = visible["procs"][p]
+                if e.get("ctor_of"):
+                    continue      # unqualified, the identifier means the type (asked for above)
                 cands.append((f"[[{spell(rng, p)}]]", p, e["tracer"], "link to procedure"))
             for vn in vvars:
                 e = visible["vars"][vn]
@@ -466,28 +537,35 @@ def gen_b(rng: random.Random, A: dict, links_ok: bool = True, clashes: bool = Tr
                     cands.append((f"[[{own['name']}:{vn}]]", vn, e["tracer"], "link to module variable"))
             local_names = {x["name"].lower() for mm in bmods for x in mm["types"] + mm["subs"] + [mm]}
             rng.shuffle(cands)
-            for text, name, tracer, why in cands[:4]:
+            cands.sort(key=lambda c: count.get(c[1].lower(), 0) < 2)      # stable: shared identifiers first
+            for text, name, tracer, why in cands[:5]:
                 if name.lower() in local_names:
                     continue   # B defines the same name itself: covered by the clash expectations
                 bm["refs"].append(text)
-                expect.append({"page": page, "text": name, "target": ("A", tracer), "why": why, "ford_link": True})
+                expect.append({"page": page, "text": name, "target": ("A", tracer), "ford_link": True,
+                               "why": why + (" (identifier shared by several entities of A)" if count.get(name.lower(), 0) > 1 else "")})
         bmods.append(bm)
     return {"modules": bmods, "expect": expect, "has_clash_module": clash_mod is not None}
 
 
-def find_entity(A, lname):
+CLASS_KINDS = {"procs": ("func", "sub", "generic"), "absints": ("absint",), "types": ("type",), "vars": ("var",)}
+
+
+def find_entity(A, lname, cls):
+    """the public entity of A with that name in the class of names `cls` (procs / absints / types / vars):
+    the same identifier may also name an entity of another class (constructor, component, binding)"""
     for k, m, e, p in a_entities(A):
-        if k in ("type", "func", "sub", "generic", "absint", "var") and e["name"].lower() == lname and p:
+        if k in CLASS_KINDS[cls] and e["name"].lower() == lname and p:
             return e
     raise KeyError(lname)
 
 
 def owner_module(A, lname):
+    """the module that declares the public module variable `lname`"""
     for m in A["modules"]:
-        for lst in ("types", "funcs", "subs", "generics", "absints", "vars"):
-            for e in m[lst]:
-                if e["name"].lower() == lname:
-                    return m
+        for e in m["vars"]:
+            if e["name"].lower() == lname and is_public(m, e):
+                return m
     return None
 
 
